@@ -36,6 +36,7 @@ type verifBatch struct {
 	tag     int   // logical payload identity (0 = no payload / zero-row framework batch)
 	size    int64 // what batchBufferSize reports
 	refs    int
+	cols    []arrow.Array // real column objects, when a harness needs cell values (C07); nil: abstract columns
 }
 
 type verifCol struct{ src *verifBatch }
@@ -60,8 +61,18 @@ func (b *verifBatch) Retain()                      { b.refs++ }
 func (b *verifBatch) Schema() *arrow.Schema        { return b.schema }
 func (b *verifBatch) NumRows() int64               { return b.rows }
 func (b *verifBatch) NumCols() int64               { return int64(b.schema.NumFields()) }
-func (b *verifBatch) Columns() []arrow.Array       { return []arrow.Array{&verifCol{src: b}} }
-func (b *verifBatch) Column(i int) arrow.Array     { return &verifCol{src: b} }
+func (b *verifBatch) Columns() []arrow.Array {
+	if b.cols != nil {
+		return b.cols
+	}
+	return []arrow.Array{&verifCol{src: b}}
+}
+func (b *verifBatch) Column(i int) arrow.Array {
+	if b.cols != nil {
+		return b.cols[i]
+	}
+	return &verifCol{src: b}
+}
 func (b *verifBatch) ColumnName(i int) string      { return b.schema.Field(i).Name }
 func (b *verifBatch) SetColumn(i int, col arrow.Array) (arrow.RecordBatch, error) {
 	return nil, errors.New("verifBatch: SetColumn not modelled")
